@@ -15,11 +15,16 @@
                first resource for which the transaction is a deposit (or decoding fails) decides }
          new:  the same loop over the resource ids in ascending order
        CalculateNonce: sha256(blockNumber.String() + "-" + txHash), the four big-endian 64-bit words xor-ed
-     executors: session id = messageID-<batch index> (EVM, C14), messageID (Substrate),
-                messageID-hex(resourceID) (BTC) *)
+     executors: session id = messageID-<batch index> (EVM), messageID (Substrate),
+                messageID-hex(resourceID) (BTC)
+     chains/evm/executor/executor.go  Execute
+         for i, batch := range batches { if len(batch.proposals) == 0 { continue } ... i := i; b := batch
+           p.Go(func() { ProposalsHash(b.proposals); sessionID := fmt.Sprintf("%s-%d", messageID, i) ... }) }
+         one goroutine per non-empty batch; what it hashes / signs and the session id it signs under
+         are those of ITS batch and ITS position, whenever it gets to run *)
 From Coq Require Import List ZArith NArith Bool String Ascii DecimalString.
 Import ListNotations.
-From SygmaV Require Import Model.C05.
+From SygmaV Require Import Model.C05 Lib.C14_Dec.
 Local Open Scope Z_scope.
 
 (* ---- the partition -------------------------------------------------------------------------------- *)
@@ -123,3 +128,87 @@ Definition pays_decode (tx : list N) (r : N) : outcome :=
 
 Definition credit_run (resources : list N) (tx : list N) : option N :=
   credit_sorted (fun r => r) pays_decode resources tx.
+
+(* ---- EVM signing sessions: one per non-empty batch, named by the batch's position ------------------ *)
+
+(* "%s-%d" with the position as Go prints an int >= 0 *)
+Definition evm_sid (mid : string) (pos : N) : string := (mid ++ dash ++ C14_Dec.dec pos)%string.
+
+(* the batch list is given by its members (deposit nonces) per position; the sessions Execute starts,
+   in position order: members hashed and signed, session ids used for them *)
+Fixpoint evm_sessions_from (mid : string) (pos : N) (bs : list (list N)) : list (list N * list string) :=
+  match bs with
+  | [] => []
+  | [] :: r => evm_sessions_from mid (N.succ pos) r
+  | ms :: r => (ms, [evm_sid mid pos]) :: evm_sessions_from mid (N.succ pos) r
+  end.
+
+Definition evm_sessions (mid : string) (bs : list (list N)) : list (list N * list string) :=
+  evm_sessions_from mid 0%N bs.
+
+(* what is handed to ProposalsHash, each exactly once: the non-empty batches *)
+Definition evm_hashed (bs : list (list N)) : list (list N) :=
+  filter (fun ms => match ms with [] => false | _ => true end) bs.
+
+Fixpoint nl_eqb (a b : list N) : bool :=
+  match a, b with
+  | [], [] => true
+  | x :: a', y :: b' => N.eqb x y && nl_eqb a' b'
+  | _, _ => false
+  end.
+
+Fixpoint sl_eqb (a b : list string) : bool :=
+  match a, b with
+  | [], [] => true
+  | x :: a', y :: b' => String.eqb x y && sl_eqb a' b'
+  | _, _ => false
+  end.
+
+Fixpoint nll_eqb (a b : list (list N)) : bool :=
+  match a, b with
+  | [], [] => true
+  | x :: a', y :: b' => nl_eqb x y && nll_eqb a' b'
+  | _, _ => false
+  end.
+
+Fixpoint sess_eqb (a b : list (list N * list string)) : bool :=
+  match a, b with
+  | [], [] => true
+  | (m, s) :: a', (m', s') :: b' => nl_eqb m m' && sl_eqb s s' && sess_eqb a' b'
+  | _, _ => false
+  end.
+
+(* THE judge of the session cases: under every schedule / repetition that was observed, the
+   sessions are exactly one per non-empty batch, each signing its own batch under
+   <message id>-<position>, and what is hashed is exactly the non-empty batches. *)
+Definition sess_ok (mid : string) (bs : list (list N))
+           (runs : list (list (list N * list string))) (hashed : list (list (list N))) : bool :=
+  forallb (fun r => sess_eqb r (evm_sessions mid bs)) runs
+  && forallb (fun h => nll_eqb h (evm_hashed bs)) hashed.
+
+(* ---- Bitcoin executor: one transaction (one signing session) per resource ---------------------------- *)
+
+(* chains/btc/executor/executor.go  Execute
+     for _, prop := range props { propsPerResource[prop.Data.ResourceId] = append(..., prop) }
+     for resourceID, props := range propsPerResource { resourceID := resourceID; props := props
+       p.Go(func() { resource := e.resources[resourceID]; executeResourceProps(props, resource, messageID) }) }
+     executeResourceProps: sessionID = messageID-hex(resource.ResourceID); the transaction pays [props]
+     from the UTXOs of resource.Address.
+   A proposal is (deposit nonce, resource id).  What each goroutine must work on: the proposals of one
+   resource, in delivery order, together with that very resource. *)
+Definition bexec_spec (props : list (N * N)) : list (list N * option N) :=
+  map (fun g => (map fst (snd g), Some (fst g))) (group (@snd N N) props).
+
+Fixpoint bgroups_eqb (a b : list (list N * option N)) : bool :=
+  match a, b with
+  | [], [] => true
+  | (m, r) :: a', (m', r') :: b' =>
+      nl_eqb m m' && (match r, r' with Some x, Some y => N.eqb x y | None, None => true | _, _ => false end)
+      && bgroups_eqb a' b'
+  | _, _ => false
+  end.
+
+(* THE judge of the Bitcoin executor cases: under every observed schedule the goroutines worked on
+   exactly the per-resource groups, each with its own resource. *)
+Definition bexec_ok (props : list (N * N)) (runs : list (list (list N * option N))) : bool :=
+  forallb (fun r => bgroups_eqb r (bexec_spec props)) runs.
